@@ -171,6 +171,8 @@ def build_api(r, kids):
                     t[a] = list(v) if isinstance(v, list) else v
                 parent.append(t)
                 add(t, sub)
+                if not t.contents and r.random() < 0.15:
+                    t.append(NavigableString(""))      # a cleared cell: `.string == ""` (present, not None)
     add(soup, kids)
     return soup
 
@@ -201,9 +203,13 @@ def edit(r, soup):
             if r.random() < 0.4:
                 n["id"] = r.choice(VALUES)
             t.insert(r.randint(0, len(t.contents)), n)
-        elif kind < 0.9:
+        elif kind < 0.83:
             t = r.choice(tags)
             t.insert(r.randint(0, len(t.contents)), NavigableString(r.choice(TEXTS + [""])))
+        elif kind < 0.9:
+            t = r.choice(tags[1:] or tags)
+            if t is not soup:
+                t.string = r.choice(["", "", "hi"])          # `.string = ""`: an empty text node as only child
         else:
             x = r.choice(nodes[1:])
             x.extract()
@@ -497,7 +503,7 @@ def gen_atom(r, pool, role):
         return ("b", True)
     if x < 0.90:
         return ("b", False)
-    if x < 0.95:
+    if x < 0.94:
         return ("o", r.choice([3, 0, 2.5, 1, 1.0]))
     return ("n",)
 
@@ -566,7 +572,8 @@ def gen_query(r, snap: Snap, target=None):
                 kk = [("class_" if k == "class" else k) for k in keys_pool if ("class_" if k == "class" else k) in KWKEYS]
                 if kk:
                     keys = [r.choice(kk)]
-            q.kwargs = [(k, gen_crit(r, tvals.get("class" if k == "class_" else k, []) * 12 + ((CLASS_TOKENS + ["u v", "v w"]) if k in ("class_", "rel") else val_pool), "attr")) for k in keys]
+            q.kwargs = [(k, ("n",) if r.random() < 0.06 else
+                         gen_crit(r, tvals.get("class" if k == "class_" else k, []) * 12 + ((CLASS_TOKENS + ["u v", "v w"]) if k in ("class_", "rel") else val_pool), "attr")) for k in keys]
     if only_string or r.random() < 0.22:
         q.string = gen_crit(r, text_pool, "string")
     if not q.crits() and r.random() < 0.8:
@@ -583,6 +590,46 @@ METHODS = {
     "nsib": ("find_next_siblings", "find_next_sibling"), "psib": ("find_previous_siblings", "find_previous_sibling"),
     "par": ("find_parents", "find_parent"),
 }
+
+
+# the documented renamings (BS4 "method names" table and the BS3 fetch*/findChild* names): alias -> the method it replaces
+ALIASES = {
+    "findAll": "find_all", "findChildren": "find_all", "findChild": "find", "findAllNext": "find_all_next", "findNext": "find_next",
+    "findNextSibling": "find_next_sibling", "findNextSiblings": "find_next_siblings", "fetchNextSiblings": "find_next_siblings",
+    "findAllPrevious": "find_all_previous", "fetchAllPrevious": "find_all_previous", "findPrevious": "find_previous",
+    "findPreviousSibling": "find_previous_sibling", "findPreviousSiblings": "find_previous_siblings",
+    "fetchPreviousSiblings": "find_previous_siblings", "findParent": "find_parent", "findParents": "find_parents",
+    "fetchParents": "find_parents",
+}
+AXIS_PROP = {"desc": "descendants", "child": "children", "next": "next_elements", "prev": "previous_elements",
+             "nsib": "next_siblings", "psib": "previous_siblings", "par": "parents"}
+
+
+def case_hash(snap, start, fam, form, limit, q):
+    import zlib
+    return zlib.crc32(f"{snap.enc}|{start}|{fam}|{form}|{limit}|{q.enc()}".encode())
+
+
+def entry_of(snap, start, fam, form, limit, q):
+    """which public entry point runs the case (deterministic per case): ('method', name) — the canonical method or one of its
+    deprecated aliases; ('as-name', name) — a SoupStrainer object given as the `name` argument; ('strainer', how) — the
+    SoupStrainer's own find_all(generator, limit) / find(generator) / filter(generator) on the family's generator"""
+    canon = METHODS[fam][0 if form != "one" else 1]
+    if form == "call":
+        return ("method", "__call__")
+    e = (case_hash(snap, start, fam, form, limit, q) // 36) % 10
+    names = [canon] + sorted(a for a, t in ALIASES.items() if t == canon)
+    if e <= 3:
+        return ("method", canon)
+    if e <= 6:
+        return ("method", names[1 + (e - 4) % (len(names) - 1)]) if len(names) > 1 else ("method", canon)
+    if not q.crits():
+        return ("method", canon)            # SoupStrainer() without criteria is not the "no criteria" search
+    if e == 7:
+        return ("as-name", canon)
+    if form == "one":
+        return ("strainer", "find")
+    return ("strainer", "filter" if (limit is None and e == 9) else "find_all")
 
 
 def run_real(snap: Snap, start: int, fam: str, form: str, limit, q: Q):
@@ -605,8 +652,8 @@ def run_real(snap: Snap, start: int, fam: str, form: str, limit, q: Q):
     el = snap.nodes[start]
     # the argument forms are varied deterministically per case (so that a replay repeats them): list criteria as list / tuple /
     # generator, str criteria as str / str subclass, and the call itself positional / defaults omitted / all keywords
-    import zlib
-    hsh = zlib.crc32(f"{snap.enc}|{start}|{fam}|{form}|{limit}|{q.enc()}".encode())
+    hsh = case_hash(snap, start, fam, form, limit, q)
+    entry = entry_of(snap, start, fam, form, limit, q)
     seq, strsub, style = hsh % 3, (hsh // 3) % 4 == 0, (hsh // 12) % 3
     kw = {}
     kw.update({k: py_crit(c, other_fn, seq, strsub) for k, c in q.kwargs})
@@ -632,14 +679,34 @@ def run_real(snap: Snap, start: int, fam: str, form: str, limit, q: Q):
     try:
         with warnings.catch_warnings():
             warnings.simplefilter("ignore")
+            if entry[0] in ("as-name", "strainer"):
+                from bs4.filter import SoupStrainer
+                skw = {k: v for k, v in kw.items() if k not in ("recursive", "limit", "name", "attrs")}
+                strainer = SoupStrainer(name, attrs, **skw)
+                if entry[0] == "as-name":
+                    m = getattr(el, entry[1])
+                    rkw = {k: v for k, v in kw.items() if k == "recursive"}
+                    if form == "one":
+                        res = m(strainer, **rkw)
+                        return (None if res is None else snap.idx.get(id(res), -1)), log
+                    if limit is not None:
+                        rkw["limit"] = limit
+                    return [snap.idx.get(id(x), -1) for x in m(strainer, **rkw)], log
+                gen = getattr(el, AXIS_PROP[fam])
+                if entry[1] == "find":
+                    res = strainer.find(gen)
+                    return (None if res is None else snap.idx.get(id(res), -1)), log
+                if entry[1] == "filter":
+                    return [snap.idx.get(id(x), -1) for x in strainer.filter(gen)], log
+                return [snap.idx.get(id(x), -1) for x in strainer.find_all(gen, limit)], log
             if form == "all":
-                m = getattr(el, METHODS[fam][0])
+                m = getattr(el, entry[1])
                 if limit is not None:
                     kw["limit"] = limit
                 res = m(*args, **kw)
                 return [snap.idx.get(id(x), -1) for x in res], log
             if form == "one":
-                m = getattr(el, METHODS[fam][1])
+                m = getattr(el, entry[1])
                 res = m(*args, **kw)
                 return (None if res is None else snap.idx.get(id(res), -1)), log
             if form == "call":
@@ -719,7 +786,28 @@ def model_line(snap, start, fam, form, limit, q, variant=None, tabs=None):
     re_t, ft, fs = tabs or tables(snap, q)
     lim = "none" if limit is None else str(limit)
     f = {"all": "all", "one": "one", "call": "call.1" if fam == "desc" else "call.0"}.get(form, form)
+    entry = entry_of(snap, start, fam, form, limit, q)
+    if entry[0] in ("as-name", "strainer"):
+        f = "sone" if form == "one" else "sall"       # the SoupStrainer-object route of the model (no shortcut applies)
+    elif entry[0] == "method" and entry[1] != "__call__":
+        # the model resolves the method name (canonical or alias) itself: BS.Search.methodOf
+        mfam, mform = method_model(entry[1])
+        fam = mfam if mfam != "byrec" else fam
+        f = mform
     return f"c10 find {variant} {snap.enc} {start} {fam} {f} {lim} {q.enc()} {re_t} {ft} {fs}"
+
+
+_METHOD_MODEL = {}
+
+
+def method_model(name):
+    """what the Lean model says a method name searches (driver op `method`), cached"""
+    if not _METHOD_MODEL:
+        names = sorted(set(ALIASES) | set(ALIASES.values()))
+        for n, rep_ in zip(names, Driver().ask([f"c10 method {n}" for n in names])):
+            a, b = (rep_.split() + ["?"])[:2] if rep_ != "unknown" else ("unknown", "?")
+            _METHOD_MODEL[n] = (b, a)
+    return _METHOD_MODEL[name]
 
 
 def heap_line(snap, start, fam, form, limit, q, variant=None, tabs=None):
@@ -729,6 +817,11 @@ def heap_line(snap, start, fam, form, limit, q, variant=None, tabs=None):
     lim = "none" if limit is None else str(limit)
     fam2 = fam
     f = "one" if form == "one" else "all"
+    entry = entry_of(snap, start, fam, form, limit, q)
+    if entry[0] == "method" and entry[1] != "__call__":
+        mfam, mform = method_model(entry[1])          # the model resolves the method name (canonical or alias)
+        fam2 = mfam if mfam != "byrec" else fam
+        f = mform
     return f"c10 findh {variant} {snap.henc} {start} {fam2} {f} {lim} {q.enc()} {re_t} {ft} {fs}"
 
 
@@ -942,9 +1035,13 @@ def check_case(ctx: Ctx, snap, case, tree_kind, lines, pend):
     tabs = tables(snap, q)
     lines.append(model_line(snap, start, fam, form, limit, q, tabs=tabs))
     pend.append((desc, real, rlog, fam, form, bad, kf, False))
-    # the heap-level model on the real pointer state: compared without any canonicalisation of the root
-    lines.append(heap_line(snap, start, fam, form, limit, q, tabs=tabs))
-    pend.append((desc | {"op": "findh"}, raw, rawlog, fam, form, bad, kf, True))
+    entry = entry_of(snap, start, fam, form, limit, q)
+    ctx.count("entry:" + (entry[1] if entry[0] == "method" else f"SoupStrainer-{entry[0]}:{entry[1]}"))
+    desc["entry"] = list(entry)
+    if entry[0] == "method":
+        # the heap-level model on the real pointer state: compared without any canonicalisation of the root
+        lines.append(heap_line(snap, start, fam, form, limit, q, tabs=tabs))
+        pend.append((desc | {"op": "findh"}, raw, rawlog, fam, form, bad, kf, True))
 
 
 def flush_model(ctx: Ctx, drv: Driver, lines, pend):
